@@ -7,36 +7,40 @@ Import ListNotations.
 Require Import UV.C04.Model UV.C04.Proofs UV.C04.ProofsLazy UV.C04.ProofsLive UV.C04.Compose UV.C04.ProofsDecode.
 
 (* One thread stores the records `recs` (store by store, switching / re-using / growing / shrinking
-   its ring of buffers); the recorder's main thread and writer run interleaved in any order
-   (`sched`); the tracee is killed at an arbitrary point (= `sched` ends); then the recorder drains
+   its ring of buffers; `start true`: beginning with its set-up by the first hook call, prepare_shmem_buffer);
+   the recorder's main thread and writer run interleaved in any order (`sched`); at any point the message
+   pipe may be closed (label LPC: mcount_trace_finish of a finish / signal trigger, REC_END / REC_START are
+   lost from then on) and between two hook calls the thread may end its recording (LD / LDC: mtd_dtor of a
+   normal thread end / after a finish or signal trigger); the tracee is killed or the recording is ended at
+   an arbitrary point (= `sched` ends); then the recorder drains
    the pipe, runs flush_shmem_list and record_remaining_buffer.  The data file then consists of
    whole records: exactly those completely stored, in order - a prefix of what the thread was
    going to write.  No guard. *)
-Theorem C04_prefix : forall cap recs sched,
-  let s := run true cap sched (init recs) in
+Theorem C04_prefix : forall setup cap recs sched,
+  let s := run true cap sched (start setup recs) in
   match_recs (done s) (file (finish s)) = true
   /\ (exists rest, recs = done s ++ rest)
   /\ ok_prefix recs (file (finish s)) = true.
 Proof. exact prefix_fixed. Qed.
 Print Assumptions C04_prefix.
 
-Theorem C04_prefix_exact : forall cap recs sched,
-  let s := run true cap sched (init recs) in
+Theorem C04_prefix_exact : forall setup cap recs sched,
+  let s := run true cap sched (start setup recs) in
   exists rest, Matches (done s) (file (finish s)) /\ recs = done s ++ rest.
 Proof. exact prefix_general_now. Qed.
 Print Assumptions C04_prefix_exact.
 
 (* both variants at once: the file is the stored records plus `extra` (empty for the code as it is) *)
-Theorem C04_prefix_general : forall single cap recs sched,
-  let s := run single cap sched (init recs) in
+Theorem C04_prefix_general : forall setup single cap recs sched,
+  let s := run single cap sched (start setup recs) in
   exists bs rest, Matches (done s) bs /\ file (finish s) = bs ++ extra single s /\ recs = done s ++ rest.
 Proof. exact prefix_general. Qed.
 Print Assumptions C04_prefix_general.
 
 (* legacy code (two size updates per record with payload): between them the file ends with a header
    whose payload is missing ... *)
-Theorem C04_window_legacy_exact : forall cap recs sched,
-  let s := run false cap sched (init recs) in
+Theorem C04_window_legacy_exact : forall setup cap recs sched,
+  let s := run false cap sched (start setup recs) in
   in_window false s = true ->
   exists r bs rest, (pc s = PCopy r \/ pc s = PBumpPl r) /\
     Matches (done s) bs /\ file (finish s) = bs ++ hdr r /\ recs = done s ++ r :: rest.
@@ -52,8 +56,8 @@ Proof. exact window_witness. Qed.
 Print Assumptions C04_header_without_payload_legacy_refuted.
 
 (* every record stored: nothing is missing *)
-Theorem C04_complete_run : forall single cap recs sched,
-  let s := run single cap sched (init recs) in
+Theorem C04_complete_run : forall setup single cap recs sched,
+  let s := run single cap sched (start setup recs) in
   pc s = PIdle -> todo s = [] -> match_recs recs (file (finish s)) = true.
 Proof. exact complete_run. Qed.
 Print Assumptions C04_complete_run.
@@ -91,17 +95,17 @@ Proof. exact segv_includes_open_calls. Qed.
 Print Assumptions C04_segv_includes_open_calls.
 
 (* hook calls -> records -> stores -> kill anywhere -> recorder: whole records, prefix of the execution *)
-Theorem C04_killed_trace_is_prefix_of_execution : forall cap ops sched,
+Theorem C04_killed_trace_is_prefix_of_execution : forall setup cap ops sched,
   wf_ops [] ops = true ->
-  let s := run true cap sched (init (concat (snd (ops_run [] ops)))) in
+  let s := run true cap sched (start setup (concat (snd (ops_run [] ops)))) in
   exists k, match_recs (firstn k (eager [] ops)) (file (finish s)) = true.
 Proof. exact killed_trace_now. Qed.
 Print Assumptions C04_killed_trace_is_prefix_of_execution.
 
-Theorem C04_crashed_trace_is_complete : forall single cap ops sched,
+Theorem C04_crashed_trace_is_complete : forall setup single cap ops sched,
   wf_ops [] ops = true ->
   let recs := concat (snd (ops_run [] ops)) ++ segv_flush (fst (ops_run [] ops)) in
-  let s := run single cap sched (init recs) in
+  let s := run single cap sched (start setup recs) in
   pc s = PIdle -> todo s = [] ->
   match_recs (eager [] ops) (file (finish s)) = true.
 Proof. exact crashed_trace_is_complete. Qed.
